@@ -238,6 +238,10 @@ func checkC08(tier string) int {
 			jobs = append(jobs, Job{Kind: "c08", Histories: c, NRules: nr, Bound: bound})
 		}
 	}
+	// a kernel holding 5 rules of different lengths: listing / deleting several rules in one call
+	for _, c := range chunk(allHistories([]int{1, 4}, 2), 4) {
+		jobs = append(jobs, Job{Kind: "c08", Histories: c, NRules: 5, Bound: 2})
+	}
 	// single-op histories with deviation bound 3 (reaches e.g. 9 x EINTR, event, 1 x EINTR)
 	for _, nr := range []int{0, 2} {
 		for _, c := range chunk(allHistories([]int{0, 1, 2, 3, 4, 5}, 1), 6) {
